@@ -15,6 +15,7 @@ import (
 
 	"google.golang.org/grpc"
 
+	"github.com/AliceO2Group/Control/apricot/cacheproxy"
 	"github.com/AliceO2Group/Control/apricot/remote"
 	"github.com/AliceO2Group/Control/configuration"
 )
@@ -106,7 +107,16 @@ func (n *remoteNode) start() error {
 	if err != nil {
 		return err
 	}
-	srv := remote.NewServer(svc)
+	var served configuration.Service = svc
+	if n.e.d.Proxy == "apricot" {
+		// the apricot component with configCache=true: cache proxy between RpcServer and local.Service
+		ps, err := cacheproxy.NewService(svc)
+		if err != nil {
+			return fmt.Errorf("cacheproxy.NewService: %w", err)
+		}
+		served = ps
+	}
+	srv := remote.NewServer(served)
 	l := &epochListener{addr: n.real.Addr(), ch: make(chan net.Conn), closed: make(chan struct{})}
 	n.mu.Lock()
 	n.cur, n.srv, n.tag, n.isDown = l, srv, tag, false
@@ -169,13 +179,31 @@ func (n *remoteNode) dial() (*remoteClient, error) {
 	if err != nil {
 		return nil, err
 	}
+	if n.e.d.Proxy == "core" {
+		// a core with configCache=true: cache proxy in front of its RemoteService
+		ps, err := cacheproxy.NewService(svc)
+		if err != nil {
+			return nil, fmt.Errorf("cacheproxy.NewService: %w", err)
+		}
+		svc = ps
+	}
 	return &remoteClient{svc: svc, epoch: epoch, tag: tag}, nil
 }
 
+// clientGroup = one core: ClientShare callers (environments) behind one client.
+type clientGroup struct {
+	mu sync.Mutex
+	rc *remoteClient
+}
+
 // remoteCaller gives caller `actor` the client to use for its next call: the one
-// it has, unless the server it was connected to is gone and another one is up
-// (the core reconnects).
-func (e *engine) remoteCaller(actor int, have *remoteClient) (*remoteClient, error) {
+// its core has, unless the server it was connected to is gone and another one is
+// up (the core reconnects).
+func (e *engine) remoteCaller(actor int) (*remoteClient, error) {
+	g := e.clients[actor/e.d.ClientShare]
+	g.mu.Lock()
+	defer g.mu.Unlock()
+	have := g.rc
 	epoch, _, down := e.remote.state()
 	if have != nil && (down || have.epoch == epoch) {
 		return have, nil
@@ -186,6 +214,9 @@ func (e *engine) remoteCaller(actor int, have *remoteClient) (*remoteClient, err
 	rc, err := e.remote.dial()
 	if err != nil && have != nil {
 		return have, nil // went down meanwhile: keep the old connection, the call will fail
+	}
+	if err == nil {
+		g.rc = rc
 	}
 	return rc, err
 }
